@@ -435,7 +435,7 @@ func solveUnit(vc *VC, opts SolveOpts) map[int]bool {
 	if opts.DumpDir != "" {
 		for _, i := range idx {
 			o := vc.obligs[i]
-			if o.Status != "unsat" {
+			if o.Status != "unsat" || (os.Getenv("CBV_DUMP_OB") != "" && strings.Contains(o.Name, os.Getenv("CBV_DUMP_OB"))) {
 				q := vc.preambleFor(flags, o, false) + fmt.Sprintf("(assert %s)\n(assert (not %s))\n(check-sat)\n", o.Guard, o.Goal)
 				os.WriteFile(filepath.Join(opts.DumpDir, sanitize(o.Name)+".smt2"), []byte(q), 0o644)
 				q2 := hdr + vc.slicedAsserts(sl, o) + fmt.Sprintf("(assert %s)\n(assert (not %s))\n(check-sat)\n", o.Guard, o.Goal)
@@ -605,4 +605,89 @@ func (vc *VC) premiseCheck(flags map[int]bool) {
 	}
 	wg.Wait()
 	sort.Strings(vc.vacuous)
+}
+
+// deadGuards (audit aid): path conditions under which some obligation is checked
+// and that are unsatisfiable together with the unit's hypotheses. Such a path is
+// either genuinely dead code or — the reason for this audit — made unreachable by
+// contradictory hypotheses, in which case everything on it is proved vacuously.
+func deadGuards(vc *VC, flags map[int]bool, timeoutMs int) []string {
+	type ex struct{ name, pos string }
+	seen := map[Term]ex{}
+	var order []Term
+	for _, o := range vc.obligs {
+		if o.Cand >= 0 || o.Guard == "true" || o.Guard == "false" {
+			continue
+		}
+		if _, ok := seen[o.Guard]; !ok {
+			seen[o.Guard] = ex{o.Name, o.Pos}
+			order = append(order, o.Guard)
+		}
+	}
+	pre := vc.preamble(flags)
+	var out []string
+	var mu sync.Mutex
+	var wg sync.WaitGroup
+	for lo := 0; lo < len(order); lo += 8 {
+		hi := lo + 8
+		if hi > len(order) {
+			hi = len(order)
+		}
+		wg.Add(1)
+		go func(lo, hi int) {
+			defer wg.Done()
+			solverSem <- struct{}{}
+			defer func() { <-solverSem }()
+			var sb strings.Builder
+			sb.WriteString("(set-option :smt.mbqi false)\n")
+			sb.WriteString(pre)
+			for k := lo; k < hi; k++ {
+				fmt.Fprintf(&sb, "(push 1)\n(assert %s)\n(echo \"@@%d\")\n(check-sat)\n(pop 1)\n", order[k], k)
+			}
+			res := runScript(solvers[0], sb.String(), hi-lo, timeoutMs)
+			for k := lo; k < hi; k++ {
+				if r, ok := res[k]; ok && r.status == "unsat" {
+					e := seen[order[k]]
+					line := fmt.Sprintf("%s (%s) guard %s", e.name, e.pos, order[k])
+					if os.Getenv("CBV_CORE") != "" {
+						line += "\n" + unsatCore(vc, flags, order[k])
+					}
+					mu.Lock()
+					out = append(out, line)
+					mu.Unlock()
+				}
+			}
+		}(lo, hi)
+	}
+	wg.Wait()
+	sort.Strings(out)
+	return out
+}
+
+// unsatCore names every hypothesis and asks z3 for a core of hyps + guard.
+func unsatCore(vc *VC, flags map[int]bool, guard Term) string {
+	var sb strings.Builder
+	sb.WriteString("(set-option :produce-unsat-cores true)\n(set-option :smt.mbqi false)\n")
+	sb.WriteString(vc.header(flags))
+	for i, a := range vc.asserts {
+		fmt.Fprintf(&sb, "(assert (! %s :named hyp%d))\n", a, i)
+	}
+	fmt.Fprintf(&sb, "(assert %s)\n(check-sat)\n(get-unsat-core)\n", guard)
+	_, _, raw, _ := rawQuery(solvers[0], sb.String(), 5000)
+	var out strings.Builder
+	lines := strings.Split(raw, "\n")
+	if len(lines) < 2 {
+		return "      (no core: " + firstLines(raw, 1) + ")"
+	}
+	for _, w := range strings.Fields(strings.Trim(lines[1], "()")) {
+		var k int
+		if _, err := fmt.Sscanf(w, "hyp%d", &k); err == nil && k < len(vc.asserts) {
+			a := vc.asserts[k]
+			if len(a) > 300 {
+				a = a[:300] + "..."
+			}
+			fmt.Fprintf(&out, "      core %s\n", a)
+		}
+	}
+	return out.String()
 }
